@@ -3,6 +3,8 @@ from props_common import BASE_TB
 PROP = {
     "modules": ["YorkieModel.Props.C12"],
     "engines": [
+        # integrated engine: real client SDK + real in-process server (memory DB), traffic captured at the HTTP transport
+        {"name": "srv", "args": ["orc=c12"], "quick": {"n": 480, "workers": 8}, "thorough": {"n": 12000, "workers": 14}},
         {"name": "presence", "quick": {"n": 2400, "workers": 8}, "thorough": {"n": 150000, "workers": 14}},
     ],
     "trusted_base": BASE_TB + [
